@@ -1,0 +1,166 @@
+//go:build verif && !no_workceptor
+// +build verif,!no_workceptor
+
+package workceptor
+
+// Verification hooks, compiled only with the build tag "verif".
+//
+// verifPoint(name, detail) is a named crash/delay point. The environment variable
+// VERIF_POINTS holds ';'-separated entries of the form
+//
+//	<role>:<point>[~<substring of detail>]=kill[@k] | sleep(<ms>)[@k]
+//
+// where role is "daemon" or "runner" (a process started with --command-runner), and @k
+// restricts the action to the k-th hit of that point in this process (default: every hit
+// for sleep, first hit for kill). If VERIF_POINTS_ONCE names a directory, an action fires
+// only if it is the first one (over all processes) to create <dir>/<role>.<point>.
+// Every hit of every point is appended as one JSON line to VERIF_POINT_LOG.
+//
+// verifStatusWrite is called under the status-file lock for every status rewrite and
+// appends one JSON line to VERIF_STATUS_LOG.
+
+import (
+	"encoding/json"
+	"os"
+	"path/filepath"
+	"strconv"
+	"strings"
+	"sync"
+	"sync/atomic"
+	"syscall"
+	"time"
+)
+
+type verifAction struct {
+	point  string
+	filter string
+	kind   string // kill | sleep
+	ms     int
+	k      int64
+}
+
+var (
+	verifOnce    sync.Once
+	verifRole    string
+	verifActions []verifAction
+	verifHits    sync.Map // point -> *int64
+	verifSeq     int64
+)
+
+func verifInit() {
+	verifRole = "daemon"
+	for _, a := range os.Args {
+		if a == "--command-runner" {
+			verifRole = "runner"
+		}
+	}
+	for _, ent := range strings.Split(os.Getenv("VERIF_POINTS"), ";") {
+		ent = strings.TrimSpace(ent)
+		eq := strings.Index(ent, "=")
+		colon := strings.Index(ent, ":")
+		if ent == "" || eq < 0 || colon < 0 || colon > eq {
+			continue
+		}
+		if ent[:colon] != verifRole {
+			continue
+		}
+		a := verifAction{point: ent[colon+1 : eq]}
+		if t := strings.Index(a.point, "~"); t >= 0 {
+			a.filter = a.point[t+1:]
+			a.point = a.point[:t]
+		}
+		act := ent[eq+1:]
+		if at := strings.LastIndex(act, "@"); at >= 0 {
+			a.k, _ = strconv.ParseInt(act[at+1:], 10, 64)
+			act = act[:at]
+		}
+		switch {
+		case act == "kill":
+			a.kind = "kill"
+			if a.k == 0 {
+				a.k = 1
+			}
+		case strings.HasPrefix(act, "sleep(") && strings.HasSuffix(act, ")"):
+			a.kind = "sleep"
+			a.ms, _ = strconv.Atoi(act[6 : len(act)-1])
+		default:
+			continue
+		}
+		verifActions = append(verifActions, a)
+	}
+}
+
+func verifAppend(envName string, rec map[string]interface{}) {
+	fn := os.Getenv(envName)
+	if fn == "" {
+		return
+	}
+	rec["pid"] = os.Getpid()
+	rec["role"] = verifRole
+	rec["seq"] = atomic.AddInt64(&verifSeq, 1)
+	rec["t"] = time.Now().UnixNano()
+	b, err := json.Marshal(rec)
+	if err != nil {
+		return
+	}
+	f, err := os.OpenFile(fn, os.O_APPEND|os.O_CREATE|os.O_WRONLY, 0o644)
+	if err != nil {
+		return
+	}
+	_, _ = f.Write(append(b, '\n'))
+	_ = f.Close()
+}
+
+func verifPoint(name string, detail string) {
+	verifOnce.Do(verifInit)
+	if os.Getenv("VERIF_POINT_LOG") == "" && len(verifActions) == 0 {
+		return
+	}
+	ctrIf, _ := verifHits.LoadOrStore(name, new(int64))
+	hit := atomic.AddInt64(ctrIf.(*int64), 1)
+	verifAppend("VERIF_POINT_LOG", map[string]interface{}{"point": name, "detail": detail, "hit": hit})
+	for _, a := range verifActions {
+		if a.point != name || (a.filter != "" && !strings.Contains(detail, a.filter)) {
+			continue
+		}
+		if a.k != 0 && a.k != hit {
+			continue
+		}
+		if dir := os.Getenv("VERIF_POINTS_ONCE"); dir != "" {
+			f, err := os.OpenFile(filepath.Join(dir, verifRole+"."+name), os.O_CREATE|os.O_EXCL|os.O_WRONLY, 0o644)
+			if err != nil {
+				continue
+			}
+			_ = f.Close()
+		}
+		switch a.kind {
+		case "kill":
+			verifAppend("VERIF_POINT_LOG", map[string]interface{}{"point": name, "detail": detail, "hit": hit, "action": "kill"})
+			_ = syscall.Kill(os.Getpid(), syscall.SIGKILL)
+			time.Sleep(time.Hour)
+		case "sleep":
+			time.Sleep(time.Duration(a.ms) * time.Millisecond)
+		}
+	}
+}
+
+func verifStatusWrite(file string, op string, hadOld bool, oldS *StatusFileData, newS *StatusFileData) {
+	verifOnce.Do(verifInit)
+	if os.Getenv("VERIF_STATUS_LOG") == "" {
+		return
+	}
+	rec := map[string]interface{}{"file": file, "op": op, "hadOld": hadOld}
+	if hadOld && oldS != nil {
+		rec["oldState"] = oldS.State
+		rec["oldSize"] = oldS.StdoutSize
+		rec["oldDetail"] = oldS.Detail
+		rec["oldWorkType"] = oldS.WorkType
+	}
+	if newS != nil {
+		rec["newState"] = newS.State
+		rec["newSize"] = newS.StdoutSize
+		rec["newDetail"] = newS.Detail
+		rec["newWorkType"] = newS.WorkType
+	}
+	verifAppend("VERIF_STATUS_LOG", rec)
+}
